@@ -179,7 +179,8 @@ fn store_step<T: DataType>(st: &mut Store<T>, tok: &str) -> String {
 pub fn observe(toks: &[&str]) -> String {
     let kind = toks[1];
     let n = NEXT.fetch_add(1, std::sync::atomic::Ordering::SeqCst);
-    let dir = scratch_root().join(format!("c16-{}", n));
+    let base = case_root();
+    let dir = base.join(format!("c16-{}", n));
     rm_rf(&dir);
     std::fs::create_dir_all(&dir).unwrap();
     let src = dir.join("src.ufo");
@@ -293,7 +294,22 @@ pub fn observe(toks: &[&str]) -> String {
     }
     drop(font);
     rm_rf(&dir);
+    let _ = std::fs::remove_dir(&base); // only when empty
     obs.join(" ")
+}
+
+/// Where the per-case trees live.  The histories create, load and save a few small UFOs each; on a
+/// disk-backed scratch directory the file-system latency dominates (20x), so a memory-backed
+/// directory is used when there is one; otherwise the scratch root of the check.
+fn case_root() -> PathBuf {
+    let shm = Path::new("/dev/shm");
+    if shm.is_dir() {
+        let p = shm.join(format!("verif-c16-{}", std::process::id()));
+        if std::fs::create_dir_all(&p).is_ok() {
+            return p;
+        }
+    }
+    scratch_root()
 }
 
 static NEXT: std::sync::atomic::AtomicUsize = std::sync::atomic::AtomicUsize::new(0);
@@ -569,7 +585,7 @@ pub fn gen(tier: &str, seed: u64, out: &mut dyn Write) {
         }
     }
     let mut rng = Rng::new(seed);
-    let count = if tier == "thorough" { 200_000 } else { 4_000 };
+    let count = if tier == "thorough" { 200_000 } else { 30_000 };
     for _ in 0..count {
         let toks = history(&mut rng);
         emit(out, &toks);
